@@ -99,3 +99,38 @@ func vShardInfos(S, K int, allChangeable bool) (infos []*shardInfo, pre []map[ui
 	}
 	return
 }
+
+// vSwr replaces seriesWithRate in the planner harnesses: an uninterpreted summary with the
+// bounds that VLemmaSwr proves for the exact floating-point definition.
+func vSwr(series int64, rate float64) int64 { return zzv.Swr(series, rate) }
+
+// VLemmaSwr: obligations that justify the summary, decided in floating-point theory on the
+// real seriesWithRate.
+func VLemmaSwr(which int) {
+	x := zzv.Int64("x")
+	zzv.Assume(0 <= x && x <= vMaxSeries)
+	switch which {
+	case 0:
+		zzv.Assert("lemma.swr.1.0", seriesWithRate(x, 1.0) == x && seriesWithRate(x, 1) == x)
+		zzv.Assert("lemma.swr.0", seriesWithRate(x, 0) == 0)
+	case 1:
+		y := seriesWithRate(x, 1.8)
+		zzv.Assert("lemma.swr.1.8", x <= y && y <= 2*x)
+	case 2:
+		y := seriesWithRate(x, 1.6)
+		zzv.Assert("lemma.swr.1.6", x <= y && y <= 2*x)
+	case 3:
+		y := seriesWithRate(x, 1.4)
+		zzv.Assert("lemma.swr.1.4", x <= y && y <= 2*x)
+	case 4:
+		y := seriesWithRate(x, 1.1)
+		zzv.Assert("lemma.swr.1.1", x <= y && y <= 2*x)
+	case 5:
+		y := seriesWithRate(x, 0.2)
+		zzv.Assert("lemma.swr.0.2", 0 <= y && y <= x)
+	case 6:
+		y := seriesWithRate(x, 0.5)
+		zzv.Assert("lemma.swr.0.5", 0 <= y && y <= x)
+	}
+	zzv.Cover("lemma.end")
+}
